@@ -1,6 +1,6 @@
 """C63: forwarding loops and Max-Forwards are honoured (end to end through the real squid)."""
 import concurrent.futures, json, os, random, re
-from vlib import std, lab, common
+from vlib import std, lab, common, hbuild, recipes, coq, corr
 
 PID = "C63"
 META = {
@@ -136,7 +136,8 @@ def hexs(s):
 
 
 def sent_headers(s):
-    hs = [list(h) for h in s["headers"]]
+    """the header fields the client sends; "@APP@" in a corpus value stands for the tree's application string"""
+    hs = [[n, v.replace("@APP@", APP)] for n, v in s["headers"]]
     if s.get("nocache"):
         hs.append(["Cache-Control", "no-cache"])
     return hs
@@ -281,6 +282,165 @@ def oracle(s, obs):
     return None
 
 
+# ------------------------------------------------------------------ unit level (components of the model)
+FRESH = ["src/HttpHeaderTools.cc", "src/HttpHeader.cc", "src/StrList.cc", "src/String.cc"]
+UB = ["-O1", "-g", "-fsanitize=undefined", "-fno-sanitize=vptr", "-fno-sanitize-recover=all"]
+LINK = [x for x in recipes.HTTPREPLY if x != "SquidConfig.o"]
+
+
+def impl():
+    return hbuild.build("h_loopmf", "h_loopmf.cc", fresh=FRESH, link=LINK, sanitize=None,
+                        flags=UB, syslibs=["-fsanitize=undefined"] + hbuild.SYSLIBS)
+
+
+def prebuild():
+    impl()
+
+
+def hb(b):
+    return bytes(b).hex() if len(b) else "-"
+
+
+def unhb(h):
+    return b"" if h == "-" else bytes.fromhex(h)
+
+
+INT64_EDGES = [2 ** 63 - 1, 2 ** 63, 2 ** 63 - 2, 2 ** 63 + 1, 2 ** 64, 2 ** 32, 2 ** 31, 10 ** 18, 10 ** 19, 10 ** 25]
+WS = [b" ", b"\t", b"\n", b"\v", b"\f", b"\r"]
+
+
+def gen_offset_value(rng):
+    k = rng.random()
+    if k < 0.25:
+        return rng.choice(MF_VALID + MF_HUGE + MF_ODD).encode()
+    v = b""
+    for _ in range(rng.choice([0, 0, 0, 1, 2])):
+        v += rng.choice(WS)
+    v += rng.choice([b"", b"", b"", b"+", b"-", b"-", b"+-", b" "])
+    q = rng.random()
+    if q < 0.35:
+        v += str(rng.choice(INT64_EDGES) + rng.randrange(-2, 3)).encode()
+    elif q < 0.9:
+        v += ("0" * rng.choice([0, 0, 1, 3]) + "".join(rng.choice("0123456789") for _ in range(rng.choice([1, 1, 2, 3, 10, 18, 19, 20, 25])))).encode()
+    v += rng.choice([b"", b"", b"", b" ", b"x", b".5", b",1", b" 7", b"\x80", b"e3"])
+    return v
+
+
+def gen_hdrs(rng):
+    hs = []
+    for _ in range(rng.choice([0, 1, 1, 2, 3, 4])):
+        k = rng.random()
+        if k < 0.4:
+            hs.append((randcase(rng, "Max-Forwards").encode(), gen_offset_value(rng)))
+        elif k < 0.8:
+            vals = [rng.choice(OTHERS + [own_entry(rng, rng.choice(["exact", "case", "nocomment"]))]) for _ in range(rng.choice([0, 1, 1, 2]))]
+            hs.append((randcase(rng, "Via").encode(), rng.choice([", ", ","]).join(vals).encode()))
+        else:
+            n, v = rng.choice(NOISE)
+            hs.append((n.encode(), v.encode()))
+    return hs
+
+
+def gen_unit_cases(rng, n):
+    needle = (" " + OWN).encode()
+    out = []
+    for k in range(n):
+        r = k % 4
+        if r == 0:
+            out.append("loopmf.offset " + hb(gen_offset_value(rng)))
+        elif r == 1:
+            nd = needle if rng.random() < 0.6 else rng.choice([b"", b"a", b"ab", b" v", needle[:5], needle[-6:]])
+            parts = [rng.choice([b"", b"1.1", b" ", b",", b"a", b"ab", b"b", nd, nd[:-1], nd[1:], nd.upper(), b"1.0 fred, "])
+                     for _ in range(rng.choice([0, 1, 2, 3, 5]))]
+            out.append("loopmf.substr %s %s" % (hb(nd), hb(b"".join(parts))))
+        elif r == 2:
+            out.append("loopmf.mffirst " + " ".join("%s:%s" % (hb(a), hb(b)) for a, b in gen_hdrs(rng)))
+        else:
+            host = rng.choice([HOST, HOST, "a", "proxy-1.example.org", "UPPER.example"]).encode()
+            out.append("loopmf.addvia %s %d %d %s" % (hb(host), rng.choice([1, 1, 1, 0, 2, 11]), rng.choice([0, 1, 1, 9, 10, 255]),
+                                                      " ".join("%s:%s" % (hb(a), hb(b)) for a, b in gen_hdrs(rng))))
+    return [c.rstrip() for c in out]
+
+
+def ref_offset(v):
+    """strtoll base 10 as C specifies it + the two failure rules of httpHeaderParseOffset: None = not accepted"""
+    v = v.split(b"\0")[0]
+    m = re.match(rb"^[ \t\n\v\f\r]*([+-]?)([0-9]+)", v)
+    if not m:
+        return None
+    x = int(m.group(2)) * (-1 if m.group(1) == b"-" else 1)
+    return x if -2 ** 63 <= x <= 2 ** 63 - 1 else None
+
+
+def unit_hdrs(args):
+    return [(unhb(a.split(":")[0]), unhb(a.split(":")[1])) for a in args]
+
+
+def unit_oracle(case, out):
+    a = case.split()
+    if out.startswith("EXC") or out.startswith("ERR"):
+        return ("oracle:unit:exception", "the real function threw or the harness failed: " + out[:120])
+    if a[0] == "loopmf.offset":
+        x = ref_offset(unhb(a[1]))
+        want = "fail" if x is None else "ok %d" % x
+    elif a[0] == "loopmf.substr":
+        n, h = unhb(a[1]), unhb(a[2])
+        want = "1" if (h != b"" and n in h) else "0"
+    elif a[0] == "loopmf.mffirst":
+        mfs = [v for n, v in unit_hdrs(a[1:]) if n.lower() == b"max-forwards"]
+        x = ref_offset(mfs[0]) if mfs else None
+        want = "-1" if x is None else str(x)
+    elif a[0] == "loopmf.addvia":
+        acc = b""
+        for n, v in unit_hdrs(a[4:]):
+            if n.lower() == b"via":
+                acc = acc + b", " + v if acc else v
+        own = b"%d.%d %s (%s)" % (int(a[2]), int(a[3]), unhb(a[1]), APP.encode())
+        want = hb(acc + b", " + own if acc else own)
+    else:
+        return None
+    if out != want:
+        return ("oracle:unit:" + a[0].split(".")[1], "expected `%s`" % want[:200])
+    return None
+
+
+def unit_kind(c, o):
+    e = c.split()[0].split(".")[1]
+    if e in ("offset", "substr"):
+        return "unit:%s:%s" % (e, o.split()[0])
+    if e == "mffirst":
+        return "unit:mffirst:" + ("absent-or-bad" if o == "-1" else "zero" if o == "0" else "positive" if not o.startswith("-") else "negative")
+    return "unit:" + e
+
+
+def unit_stage(res, tier):
+    """strtoll / strstr / getInt64 / getList+addVia models against the real functions (compiled from the working tree)"""
+    try:
+        exe = impl()
+    except hbuild.BuildError as ex:
+        res.fail("build", "C63: unit harness no longer builds against /repo's working tree: %s" % str(ex)[-1200:],
+                 {"no_failing_input_found": True, "broken": "harness build h_loopmf", "detail": str(ex)[-3000:]})
+        return
+    runner = coq.build_runner("loopmf")
+    rng = random.Random(common.seed() * 1000003 + 6363)
+    cases = std.load_corpus(PID) + gen_unit_cases(rng, 8000 if tier == "quick" else 200000)
+    implo, modelo, dis = std.corr_stage(res, cases, exe, runner, kind_fn=unit_kind)
+    found = 0
+    for c, o in zip(cases, implo):
+        v = unit_oracle(c, o)
+        if v and res.fail(v[0], "C63 (unit) on input `%s`: implementation answered `%s`: %s" % (c[:400], o[:300], v[1]),
+                          {"case": c, "impl": o, "oracle": v[1], "signature": v[0]}):
+            found += 1
+    if dis and not found:
+        k, c, a, b = dis[0]
+        res.fail("corr:unit", "model and implementation disagree on %d unit cases (first: `%s` impl=`%s` model=`%s`); the reference "
+                 "oracle holds on every implementation answer" % (len(dis), c[:300], a[:150], b[:150]),
+                 {"no_failing_input_found": True, "broken": "correspondence LoopmfModel components vs real functions",
+                  "case": c, "impl": a, "model": b, "disagreements": len(dis)})
+    res.extra["unit_cases"] = len(cases)
+    res.extra["unit_disagreements"] = len(dis)
+
+
 def kind_fn(s, o):
     return s["method"] + ":" + o.split()[0] + (":" + o.split()[1] if o.startswith("local") else "")
 
@@ -298,6 +458,7 @@ def run(res, tier):
                 "(none / fresh / stale entry) with or without Cache-Control: no-cache; observables: arrivals at the origin, "
                 "forwarded Max-Forwards and Via, conditional or not, client status when answered locally; "
                 "non-trivial = the request carries a Via or Max-Forwards field")
+    unit_stage(res, tier)
     std.run_lab(res, PID, tier, area="loopmf", gens=["hdrtable", "loopmf"], gen_scenarios=gen_scenarios, run_impl=run_impl,
                 to_case=to_case, oracle=oracle, corr_name="LoopmfModel.handle vs the running squid",
                 n_quick=260, n_thorough=6000, seed_salt=63, kind_fn=kind_fn, nontrivial_fn=nontrivial_fn)
